@@ -23,7 +23,7 @@ _KNOWN = {
     "DatabaseRef for CacheDB<ExtDB>": "verus",
     "Database for EmptyDBTyped<E>": "verus",
     "DatabaseRef for EmptyDBTyped<E>": "verus",
-    "Database for State<DB>": "verus: code_by_hash + finding (has_storage); basic/storage/block_hash NOT covered",
+    "Database for State<DB>": "verus: code_by_hash, has_storage; basic/storage/block_hash NOT covered",
     "Database for BenchmarkDB": "leaf database (fixed answers), not a wrapper: out of scope",
 }
 
@@ -89,6 +89,12 @@ PROP = dict(
                "(Verus call_ensures on the trait method of the generic inner type; no determinism assumption) and leave the wrapper unchanged. "
                "(2) EmptyDBTyped<E> (both traits): basic -> Ok(None), storage -> Ok(0), code_by_hash -> Ok(Bytecode::default()), "
                "block_hash(n) -> Ok(keccak256(n.to_string())) with keccak256 / to_string / UTF-8 uninterpreted, has_storage -> Ok(false). "
+               "(2b) has_storage / has_storage_ref (EIP-7610, C21's database-layer part) of CacheDB (both traits, since /repo 9bf99cf2): true if the "
+               "cache itself holds a non-zero slot of the account, false if it knows the storage to be cleared / the account not to exist, otherwise "
+               "EXACTLY the wrapped database's has_storage_ref answer (loop over HashMap::values() with a spliced invariant); of State: if nothing is "
+               "cached for the address and no preloaded bundle is consulted, the answer is an error, the wrapped database's has_storage answer, or false "
+               "because the wrapped database reported the account as not existing. The block is //@extract-or <override> || <trait default body>: "
+               "dropping an override again makes the default `Ok(false)` fail the same obligation. "
                "(3) CacheDB<ExtDB>, DatabaseRef impl: each of basic_ref / code_by_hash_ref / storage_ref / block_hash_ref returns the cache's own "
                "answer when the cache has one (cached account info with NotExisting => None; cached slot; zero for a slot of an account whose "
                "storage is known cleared / not existing; cached code; cached block hash) and otherwise EXACTLY what the wrapped database "
@@ -119,9 +125,13 @@ PROP = dict(
                "content (Verus does not resolve the moved VacantEntry on that exit); storage and block_hash prove 'unchanged' on their error paths. "
                "(e) DatabaseComponents' methods cannot go through Verus (datatype constructor used as a function value in map_err): Kani, complete over the stub domain. "
                "(f) State/BlockHash component impls for &T / Arc<T> (components/state.rs, block_hash.rs), AlloyDB / EthersDB (feature-gated network leaves), BenchmarkDB (leaf). "
-               "FINDINGS (C20 'has-storage answer' = C21 database-layer part; obligations dbwrap:*__finding_*, expected to fail, in known_findings.txt, "
-               "never counted): CacheDB (both traits), State and DatabaseComponents (both traits) do not override the provided methods "
-               "has_storage / has_storage_ref, so the trait default Ok(false) answers for them whatever the wrapped data says. "
+               "(g) State::has_storage is verified only for the case 'nothing cached, no preloaded bundle', and on an ASSUMED (not proved) contract of "
+               "State::load_cache_account for that case (the function goes through Into::into / BundleAccount / CacheAccount constructors); the exact rule "
+               "for cached accounts (slots of the PlainAccount, AccountStatus) belongs to C15-C19's vocabulary. "
+               "FINDING (C20 'has-storage answer' = C21 database-layer part; obligations dbwrap:has_storage*__finding_components*, expected to fail, in "
+               "known_findings.txt, never counted): DatabaseComponents (both traits) does not override has_storage / has_storage_ref and cannot: its "
+               "State / StateRef component traits have no such method, so the trait default Ok(false) answers whatever the wrapped data says. "
+               "(CacheDB and State had the same defect; fixed in /repo 9bf99cf2 after the demonstration mutations/C20/demo_has_storage.rs.) "
                "Explicit assumption in CacheDB::storage's contract: for an account the wrapped database does not have, the answer is zero "
                "without asking the wrapped database for the slot.",
     explanation="has_storage census of this run: " + _has_storage_census(),
@@ -129,7 +139,9 @@ PROP = dict(
         "vstd's specifications of std HashMap (get, insert, entry, Entry::{Occupied,Vacant}, OccupiedEntry::{get,get_mut,into_mut}, "
         "VacantEntry::insert), Option::{map, unwrap_or_else, is_some}, Result `?`, ToString::to_string",
         "alloy's DefaultHashBuilder builds valid hashers and Address / B256 / U256 obey vstd's hash-table key model (4 axioms in the unit)",
-        "ruint: U256::ZERO, U256::default() and U256::from(u64) (uninterpreted constants / function; only their identity matters here)",
+        "ruint: U256::ZERO, U256::default() and U256::from(u64) (uninterpreted constants / function; only their identity matters here); "
+        "Uint::is_zero(x) <=> x == ZERO",
+        "vstd's specification of HashMap::values() and of `for` loops over it (the yielded sequence has exactly the map's values as its set)",
         "derive(Clone) on AccountInfo / Bytecode returns an equal value; derive(Default) on DbAccount is field-wise with AccountState::None",
         "keccak256, String::as_bytes (UTF-8) and Display for u64 are uninterpreted functions of their argument",
         "assume_specification on the compiled DbAccount helpers and EmptyDBTyped's DatabaseRef methods carry the clause text that the same "
@@ -141,6 +153,8 @@ PROP = dict(
         "CacheDB::storage: an account absent from the wrapped database has no storage there (the cache answers zero without asking)",
         "State<DB>::{basic, storage, block_hash}, commit histories and the 256-block hash window are NOT covered",
         "Kani harnesses: AccountInfo.code is None, Bytecode answers compared by Ok/Err only",
-        "FINDING has_storage not forwarded by CacheDB / State / DatabaseComponents (see known_findings.txt)",
+        "State::load_cache_account: ASSUMED contract (case: address not cached, no preloaded bundle) -- asks database.basic(address), passes an "
+        "error on, otherwise returns a freshly loaded CacheAccount (no storage entries; LoadedNotExisting iff the answer was None)",
+        "FINDING has_storage not forwarded by DatabaseComponents (see known_findings.txt); CacheDB / State fixed in 9bf99cf2",
     ],
 )
